@@ -30,8 +30,8 @@ VALUES = ['L' * 3300, 'v', '', 'é-ünï-☃', '<b>&=?;,"\\', 0, 1, -7, 2.5, 1e1
           'what?', '->', 'a->', 'ab->', '~', 'x~', 'xy~', '???', '>>>', '?>~', 'a?b>c~d', ['?', '>', '~'], {'q?': '>~'}, '\x7f', 'ÿþý',
           # strings no UTF-8 encoder accepts (half of a surrogate pair, as a JavaScript client that cuts an emoji sends it)
           '\ud83d', 'x\udc00y', {'n': ['\ud83d', 1]}, '\U0001f600', '\x00']
-KEYS = ['k', 'j', 'user', 'ünï', 'a b', 'k&k', 'k=k', '']
-TAMPERS = ['amp_to_pipe', 'amp_to_pipe', 'pipe_tail', 'flip', 'flip', 'trunc', 'extend', 'swap', 'resign', 'random', 'nonascii', 'badb64', 'nosep',
+KEYS = ['k', 'j', 'user', 'a~b', 'ünï', 'a b', 'k&k', 'k=k', '', "it's", 'dot.ted', 'x(1)', 'st*r', '!', 'pipe|d']
+TAMPERS = ['expires_nonnumber', 'expires_nonnumber', 'amp_to_pipe', 'amp_to_pipe', 'pipe_tail', 'flip', 'flip', 'trunc', 'extend', 'swap', 'resign', 'random', 'nonascii', 'badb64', 'nosep',
            'quotes', 'junk_in_mac', 'strip_pad', 'empty', 'only_sep', 'dup_item', 'expiry_forge', 'unsigned_json']
 
 
@@ -109,6 +109,10 @@ def tamper(kind, raw, p, other_token, registry_tokens):
         if other_token:
             return mac + '?' + other_token.partition('?')[2], other_token
         return payload + '?' + mac, None
+    if kind == 'expires_nonnumber':
+        # not signed by anybody; the embedded expiry item is well-formed base64 JSON -- of something that is no number
+        e = base64.b64encode(json.dumps(p.get('data') and None or [None, 'soon', [1], {'t': 1}, True][int(p.get('pos', 0) * 5) % 5]).encode()).decode()
+        return 'x?_expires=%s%s' % (e, '&k=ImV2aWwi' if p.get('alt') else ''), None
     if kind == 'amp_to_pipe':
         # the item separator replaced by the character the MAC puts in front of every item: one "item" whose bytes are
         # MAC-equivalent to the genuine cookie
